@@ -14,6 +14,10 @@ EVAL_PREFIX = (
     "os.system", "os.popen", "os.exec", "os.spawn", "os.posix_spawn", "os.startfile", "subprocess.", "pty.",
     "yaml.load", "yaml.unsafe_load", "yaml.full_load", "builtins.eval", "builtins.exec", "builtins.compile",
     "builtins.__import__", "commands.", "popen2.", "multiprocessing.Process", "jinja2.", "timeit.",
+    # configuration-driven object construction: "()" / "class" / "ext://" entries of a logging
+    # configuration name arbitrary callables, fileConfig evaluates its args, listen() receives configurations
+    "logging.config.", "pydoc.locate", "pydoc.safeimport", "pkgutil.resolve_name", "pkgutil.get_loader", "imp.",
+    "zipimport.", "webbrowser.", "os.fork", "os.forkpty", "trace.", "cProfile.run", "profile.run", "pdb.",
 )
 EVAL_ALLOWED = {"importlib.metadata", "importlib.resources", "pickle.dumps", "pickle.dump", "marshal.dumps"}
 WRITE_FUNCS = {
